@@ -15,9 +15,9 @@ RULE = ("one execution = one JDF text pushed through parsec-ptgpp -E twice (+ gc
 
 GCC_FLAGS = ['-fsyntax-only', '-std=gnu11', '-w']
 
-# ---- genuine-defect candidates found by this check on the unchanged tree (see NOTES.md). A failing text is attributed to one of them
+# ---- genuine defects found by this check on the unchanged tree (see NOTES.md; a fifth one, fatal sanity errors not stopping ptgpp,
+# ---- was repaired in /repo by the lead's fix commit a535b45 and is no longer attributed). A failing text is attributed to one of them
 # ---- only by the structural predicate below AND only if the lead listed the id in known_findings.json; otherwise it is a VIOLATION.
-F_FATAL = 'C24-fatal-sanity-errors-do-not-stop-ptgpp'
 F_TREMOTE = 'C24-type-remote-on-collection-input-asserts'
 F_TERN2 = 'C24-ternary-two-collection-refs'
 F_ARITY = 'C24-task-call-with-extra-arguments-crashes'
@@ -54,8 +54,6 @@ def attribute(t, r):
         return F_IADER
     if out == 'signal' and 'call_with_extra_args' in t['feats'] and ('Wrong number of arguments when calling' in diag or not diag.strip()):
         return F_ARITY
-    if out in ('accepted-not-compilable', 'signal') and 'Fatal Error on' in diag:
-        return F_FATAL
     return None
 
 
@@ -121,7 +119,18 @@ def build_texts(lim, tier):
         if re.search(r'(%d|%d|%d|%d)(_|$|@)' % (lim['MAX_PARAM_COUNT'] - 1, lim['MAX_PARAM_COUNT'], lim['MAX_DEP_IN_COUNT'] - 1, lim['MAX_DEP_IN_COUNT']), t['name']):
             return 1
         return 4
-    buckets = [[t for t in R if klass(t) == k] for k in range(5)]
+    def spread(lst):
+        """round-robin over the generator families (name prefix) inside a class"""
+        fam = {}
+        for t in lst:
+            fam.setdefault(re.match(r'[a-zA-Z]+', t['name']).group(0), []).append(t)
+        o = []
+        while any(fam.values()):
+            for k in list(fam):
+                if fam[k]:
+                    o.append(fam[k].pop(0))
+        return o
+    buckets = [spread([t for t in R if klass(t) == k]) for k in range(5)]
     out = []
     while any(buckets):
         for b in buckets:
